@@ -358,12 +358,12 @@ def r5(ctx: Context, sites) -> None:
             ok = len(inter) >= 3 and "task_matches" in ast.unparse(o.node)
             ctx.add("R5", f"{o.qualname}::task-and-status-filters-ANDed", ok, o.loc(), "" if ok else "task / key / status matches are not intersected")
     # lookups are read-only: they must not mutate the index they read (directly or through an alias)
-    from ..flow import aliased_store_mutations, mem_store_writes
+    from ..flow import aliased_store_mutations, class_live_returns, mem_store_writes
 
     for o in [x for x in repo.overrides(base, "get_existing_invocations") if not x.is_abstract]:
         helpers = [o] + [h for c in calls_in(o.node) if isinstance(c.func, ast.Attribute) and isinstance(c.func.value, ast.Name) and c.func.value.id == "self" and o.cls is not None for h in [o.cls.find_method(c.func.attr)] if h is not None and h is not o]
         for h in helpers:
-            muts = [(n_, "self." + w_) for n_, _, w_ in aliased_store_mutations(h.node)] + [(w.node, "self." + w.attr) for w in mem_store_writes(h.node) if not w.how.startswith("rebind")]
+            muts = [(n_, "self." + w_) for n_, _, w_ in aliased_store_mutations(h.node, None, class_live_returns(h.cls))] + [(w.node, "self." + w.attr) for w in mem_store_writes(h.node) if not w.how.startswith("rebind")]
             okp = not muts
             ctx.add("R5", f"{h.qualname}::lookup-does-not-mutate-the-index", okp, h.loc(muts[0][0]) if muts else h.loc(),
                     "" if okp else f"the same-key lookup modifies {muts[0][1]} in place ({ast.unparse(muts[0][0])[:60]}): entries of invocations that are still PENDING/RUNNING disappear from the argument index, so later same-key invocations are not blocked")
